@@ -142,6 +142,13 @@ class Task:
                     return self._execute_main(kwargs)
             except Exception as e:
                 self._log_and_set_exception(e)
+            except BaseException as e:
+                # For example a KeyboardInterrupt when the task runs in the
+                # caller's thread (NonThreadedExecutor). Record it before the
+                # done callbacks below run, so that nothing mistakes the
+                # transfer for a healthy one, and let it propagate.
+                self._log_and_set_exception(e)
+                raise
             finally:
                 # Run any done callbacks associated to the task no matter what.
                 for done_callback in self._done_callbacks:
